@@ -1,4 +1,61 @@
-import ShmVerif.Model.Proto
+import ShmVerif.Proof.Mux
+import ShmVerif.Props.C08
+/-!
+  C09 — all shared memory comes back once streams are finished.
+
+  PARTIAL proof.  At message level (`Mux`, tied to the real sessions by the shared two-session harness) every exit path that
+  ends a message's life releases it: a Flush that fails on a closed stream or on a full queue releases the message at once;
+  a local Close releases everything buffered on the stream; data arriving for a client stream that no longer exists, or for
+  a stream that is already closed, is released on arrival.  At buffer level (`LinkedBuffer`): ReleasePreviousRead empties the
+  parked list (C08), `recycle` (used by Close) returns parked and listed slices alike (repaired code).
+  NOT yet proved: the global conservation invariant (every message is, at all times, in exactly one of: a queue, the
+  connection, one stream's buffer, released), nor its slot-level refinement; both are covered on the real code by the leak
+  monitor of the harness (every stream closed on both ends, nothing in flight ⇒ every size class offers its full
+  capacity and AllInUsedShareMemoryInBytes = 0).
+-/
 namespace Props.C09
-theorem placeholder : True := trivial
+open Mux List
+
+/-- Flush on a stream that is not open releases the message immediately. -/
+theorem c09_flush_closed_releases (s : Sys) (x : Side) (i : Nat) (heap : Bool) (st : MStream)
+    (h : (s.me x).find i = some st) (hst : st.state ≠ .opened) :
+    (flush s x i heap).1.retired = s.retired ++ [s.fresh] ∧ (flush s x i heap).1.ch = s.ch := by
+  unfold flush; rw [h]
+  simp only [hst, ne_eq, not_false_eq_true, if_true]
+  exact ⟨trivial, trivial⟩
+
+/-- Flush that finds the queue full (write deadline passed) releases the message immediately. -/
+theorem c09_queue_full_releases (s : Sys) (x : Side) (i : Nat) (st : MStream)
+    (h : (s.me x).find i = some st) (ho : st.state = .opened) (hfb : st.inFb = false)
+    (hfull : (s.ch x).q.length ≥ s.qcap) :
+    (flush s x i false).2 = .timeout ∧ (flush s x i false).1.retired = s.retired ++ [s.fresh] ∧ (flush s x i false).1.ch = s.ch := by
+  unfold flush; rw [h]
+  simp only [ho, ne_eq, not_true_eq_false, if_false, hfb, Bool.false_eq_true, or_self, hfull, if_true]
+  exact ⟨trivial, trivial, trivial⟩
+
+/-- A local Close releases everything that was buffered on the stream (pending and unread). -/
+theorem c09_close_releases_buffered (s : Sys) (x : Side) (i : Nat) (st : MStream)
+    (h : (s.me x).find i = some st) (hne : st.state ≠ .closed) :
+    (closeStream s x i).1.retired = s.retired ++ st.buffered := by
+  unfold closeStream; rw [h]
+  simp only [hne, if_false]
+  split
+  · split <;> simp [Sys.setCh, Sys.setMe]
+  · simp [Sys.setMe]
+
+/-- Data arriving at a client for a stream that no longer exists is released on arrival, not offered. -/
+theorem c09_unknown_stream_releases (s : Sys) (y : Side) (i m : Nat) (hcl : (s.me y).isClient = true)
+    (hreg : (s.me y).registered i = false) :
+    (offer s y i m).retired = s.retired ++ [m] ∧ (offer s y i m).got = s.got := by
+  unfold offer getStream
+  simp only [hreg, Bool.false_eq_true, if_false, hcl, Bool.not_true, false_and]
+  exact ⟨rfl, rfl⟩
+
+/-- buffer level: ReleasePreviousRead and (repaired) recycle leave nothing parked -/
+theorem c09_release_empties_parked (m : LB.Mem) (l : LB.LBuf) : (l.release m).2.pinned = [] :=
+  Props.C08.c08_release_returns m l
+
+theorem c09_recycle_empties_buffer (m : LB.Mem) (l : LB.LBuf) : (l.recycle m).2.pinned = [] ∧ (l.recycle m).2.sl = [] := by
+  unfold LB.LBuf.recycle; exact ⟨rfl, rfl⟩
+
 end Props.C09
